@@ -71,3 +71,50 @@ func assertEqBytes(got, want []byte, what string) {
 		verifAssert(got[i] == want[i], what)
 	}
 }
+
+// zzC09_kmac_ctor: NewKMAC_128 with arbitrary key / customizer lengths and an arbitrary output size; the
+// object it returns accepts writes of any length
+func zzC09_kmac_ctor(keyLen, custLen, dataLen int) {
+	key := nondetBytes(keyLen)
+	cust := nondetBytes(custLen)
+	size := nondetInt()
+	// documented exception: the output buffer is linear in the requested size
+	verifAssume(size < 40)
+	h, err := NewKMAC_128(key, cust, size)
+	if keyLen < 16 || size < 0 {
+		verifAssert(bAnd(h == nil, err != nil), "short keys and negative sizes are rejected")
+		verifReach("kmac ctor rejected")
+		return
+	}
+	verifAssert(err == nil, "valid parameters are accepted")
+	verifAssert(h.Size() == size, "Size() is the requested size")
+	_ = h.Algorithm().String()
+	data := nondetBytes(dataLen)
+	n, err := h.Write(data)
+	verifAssert(bAnd(n == dataLen, err == nil), "Write consumes everything")
+	verifAssert(len(h.SumHash()) == size, "SumHash has the requested size")
+	verifAssert(len(h.ComputeHash(data)) == size, "ComputeHash has the requested size")
+	h.Reset()
+	verifReach("kmac ctor")
+}
+
+// zzC09_hashers: fixed-function hashers and one-shot helpers on any input length
+func zzC09_hashers(dataLen int) {
+	data := nondetBytes(dataLen)
+	for _, h := range []Hasher{NewSHA2_256(), NewSHA2_384(), NewSHA3_256(), NewSHA3_384(), NewKeccak_256()} {
+		_ = h.Algorithm().String()
+		d := h.ComputeHash(data)
+		verifAssert(len(d) == h.Size(), "digest length")
+		h.Reset()
+		_, _ = h.Write(data)
+		d2 := h.SumHash()
+		verifAssert(d.Equal(d2), "one-shot equals streaming")
+		_, _ = d.Hex(), d.String()
+		h.Reset()
+	}
+	var r1 [HashLenSHA2_256]byte
+	var r2 [HashLenSHA3_256]byte
+	ComputeSHA2_256(&r1, data)
+	ComputeSHA3_256(&r2, data)
+	verifReach("hashers")
+}
